@@ -234,6 +234,9 @@ func (m *Machine) strLess(x, y Value) Value {
 }
 
 func (m *Machine) binop(op token.Token, t types.Type, x, y Value, yt types.Type) Value {
+	if isSymFloat(x) || isSymFloat(y) {
+		return m.symFloatBinop(op, x, y) // order-only floats, model_symfloat.go
+	}
 	// equality on any comparable type
 	switch op {
 	case token.EQL:
